@@ -1329,6 +1329,18 @@ func (e *Engine) evalCall(ctx *EvalCtx, x *Expr) (Val, error) {
 			return vs[0].Tuple[idx], nil
 		}
 		return Val{}, fmt.Errorf("%s needs a tuple", name)
+	case "store":
+		// store(a, i, v): functional update of an array-sorted ghost
+		vs, err := args()
+		if err != nil {
+			return Val{}, err
+		}
+		if len(vs) == 3 && strings.HasPrefix(e.valSort(vs[0]), "(Array ") {
+			r := vs[0]
+			r.S = fmt.Sprintf("(store %s %s %s)", vs[0].S, vs[1].S, vs[2].S)
+			return r, nil
+		}
+		return Val{}, fmt.Errorf("store(array ghost, index, value)")
 	case "since":
 		// time elapsed since t on the ghost clock, at this program point (no advance)
 		vs, err := args()
